@@ -748,7 +748,7 @@ func genOp1(rt *rapid.T, w *World, pr *Profile) Op {
 	case "SetWithMeta", "DeleteWithMeta":
 		op.Cas = genCas(rt, map[string]int{"current": 60, "zero": 15, "prev": 10, "never": 10, "other": 5})
 		op.Exp = pick(rt, []ExpSpec{{Kind: "zero"}, {Kind: "abs", V: 7200}, {Kind: "rel", V: 90000}}, "meta.exp")
-		mw := map[string]int{"above": 50, "below": 20, "between": 20, "future": 12, "same": 8}
+		mw := map[string]int{"above": 50, "below": 20, "between": 20, "future": 12, "same": 8, "huge": 5}
 		if pr.MetaCasW != nil {
 			mw = pr.MetaCasW
 		}
